@@ -943,7 +943,7 @@ def _audit_worker(job):
             elif not np.max(np.abs(v.reshape(m_, n_) - got["call"])) <= _TOL["route"]:
                 impl.append((f"form:call:int64-coordinates:{key}", "integer-typed coordinates give other weights than the same "
                              f"values as floats (diff {np.max(np.abs(v.reshape(m_, n_) - got['call'])):.3e})", case))
-        if kind in ("many-atoms", "high-order", "lattice") and "atom" in got:    # float32 inputs
+        if kind in ("many-atoms", "lattice") and "atom" in got:    # float32 inputs (order 3: slope of the cell function <= 3.4)
             p32, a32 = pts.astype(np.float32), atc.astype(np.float32)
             r64, e1 = _stack(lambda b: bw.compute_atom_weight(p32.astype(float), a32.astype(float), z, b), m, len(pts))
             r32, e2 = _stack(lambda b: bw.compute_atom_weight(p32, a32, z, b), m, len(pts))
